@@ -114,7 +114,13 @@ def _is_type_checking(node: ast.If) -> bool:
 
 
 def _has_elif_block(node: ast.If) -> bool:
-    return bool(node.orelse) and len(node.orelse) == 1 and isinstance(node.orelse[0], ast.If)
+    # An ``elif`` is an ``If`` node that starts at the column of its parent ``if``, whereas
+    # an ``else:`` block that only consists of an ``if`` statement is indented further.
+    return (
+        len(node.orelse) == 1
+        and isinstance(node.orelse[0], ast.If)
+        and node.orelse[0].col_offset == node.col_offset
+    )
 
 
 @dataclass(frozen=True)
